@@ -74,6 +74,7 @@ func c14Run(r *Run, depth, shard int) {
 		Act("updateMaxMessageBodySize(8000) by A0", &cctptypes.MsgUpdateMaxMessageBodySize{From: Owner.Str, MessageSize: 8000}),
 	}
 	fresh := InboundBurn(DomEth, 50, big.NewInt(33), pad32(UserA.Addr), nil)
+	zeroAmt := InboundBurn(DomEth, 51, big.NewInt(0), pad32(UserA.Addr), nil)
 	type probe struct {
 		name  string
 		a     Action
@@ -89,6 +90,7 @@ func c14Run(r *Run, depth, shard int) {
 		{"depositWithCaller-33B-caller", MkDepositWithCaller(UserA.Str, math.NewInt(7), DomEth, distinct32(0x24), "uusdc", append(distinct32(0x25), 9)), 2, "33-byte caller"},
 		{"deposit-31B-recipient", MkDeposit(UserA.Str, math.NewInt(7), DomEth, distinct32(0x24)[:31], "uusdc"), 2, "31-byte mint recipient"},
 		{"receive-mint", MkReceive(UserB.Str, fresh, Attest(fresh, signers), "burn(0,50,33)"), 1, ""},
+		{"receive-mint-zero-amount", MkReceive(UserB.Str, zeroAmt, Attest(zeroAmt, signers), "burn(0,51,0)"), 1, "the token factory refuses to mint a zero amount"},
 	}
 	plans := func(n int) [][]int {
 		out := [][]int{{}}
